@@ -207,8 +207,9 @@ K(k, s) == [k |-> k, s |-> s]
 P(s)    == K(s, s)                         \* punctuation: the kind is the lexeme
 (* TLC strings are atomic: whether a name starts with a lower-case letter is given by the set LowerNames *)
 (* (the model's name pools, or - for recorded traces - the names of the trace classified by the harness) *)
-CONSTANT LowerNames
-LowerStart(nm) == nm \in LowerNames
+(* LongNamesLower = TRUE: names longer than 20 characters are paddings (made by a model) of a lower-case name   *)
+CONSTANTS LowerNames, LongNamesLower
+LowerStart(nm) == nm \in LowerNames \/ (LongNamesLower /\ Len(nm) > 20)
 NameTok(ns, nm) == IF ns = "" THEN K(IF LowerStart(nm) THEN "lc" ELSE "uc", nm)
                    ELSE K(IF LowerStart(nm) THEN "lcns" ELSE "ucns", ns \o "." \o nm)
 VarTok(nm) == K(IF LowerStart(nm) THEN "lc" ELSE "uc", nm)
